@@ -78,6 +78,7 @@ struct Plan {
 // ---- declaration table (shared by generator, renderer and interpreter) ---------------------------
 struct DeclInfo {
     bool dtorGate = false;  // object of class Q1X: its destructor applies h to its qubit
+    bool dtorTemp = false;  // object of class Q1Y: its destructor first declares a qubit of its own and flips it, then applies h to the field
     bool dtorMeasure = false;  // object of class Q1M: its destructor resets and measures its qubit (the tracked outcome is taken afterwards)
     std::string cls;        // dynamic class of an object declaration (Q1, Q1D, Q1X, Q1M, Q2)
     int kind = 0;   // 0 var, 1 array, 2 obj1, 3 obj2, 4 alias, 5 port
@@ -123,6 +124,7 @@ inline std::string preamble(bool trackedFields, bool staticQubit = false) {
     s += "}\n";
     s += "class Q1D extends Q1 {\n    public int tag;\n    public constructor() -> Q1D { super(); this.tag = 1; return this; }\n}\n";
     s += "class Q1X extends Q1 {\n    public constructor() -> Q1X { super(); return this; }\n    public destructor() -> void { h(this.q); }\n}\n";
+    s += "class Q1Y extends Q1 {\n    public constructor() -> Q1Y { super(); return this; }\n    public destructor() -> void { qubit tmp; x(tmp); h(this.q); }\n}\n";
     s += "class Q1M extends Q1 {\n    public constructor() -> Q1M { super(); return this; }\n    public destructor() -> void { reset this.q; measure this.q; }\n}\n";
     s += "class Q2 {\n";
     s += "    " + t + "public qubit[2] qs;\n";
@@ -191,7 +193,7 @@ inline Rendered render(const Plan& p, bool trackedFields = true) {
         switch (o.kind) {
             case DECL: add(std::string(o.tracked ? "@tracked " : "") + "qubit q" + std::to_string(declCounter++) + ";", oi, true); break;
             case DECLARR: add(std::string(o.tracked ? "@tracked " : "") + "qubit[" + std::to_string(o.size) + "] r" + std::to_string(declCounter++) + ";", oi, true); break;
-            case NEWOBJ1: add(std::string("Q1 o") + std::to_string(declCounter) + (o.path % 8 == 6 ? " = new Q1M();" : o.path % 4 == 1 ? " = new Q1D();" : o.path % 4 == 3 ? " = new Q1X();" : " = new Q1();"), oi, true); ++declCounter; break;
+            case NEWOBJ1: add(std::string("Q1 o") + std::to_string(declCounter) + (o.path % 8 == 6 ? " = new Q1M();" : o.path % 8 == 7 ? " = new Q1Y();" : o.path % 4 == 1 ? " = new Q1D();" : o.path % 4 == 3 ? " = new Q1X();" : " = new Q1();"), oi, true); ++declCounter; break;
             case NEWOBJ2: add("Q2 p" + std::to_string(declCounter) + " = new Q2();", oi, true); ++declCounter; break;
             case GATE:
                 if (o.loop >= 2) add("for (int lp" + std::to_string(oi) + " = 0; lp" + std::to_string(oi) + " < " + std::to_string(o.loop) + "; lp" + std::to_string(oi) + " = lp" + std::to_string(oi) + " + 1) { " + gateCall(o, decls) + " }", oi, true);
@@ -756,7 +758,8 @@ struct Interp {
                 d.tracked = o.tracked;
                 d.dtorGate = o.kind == NEWOBJ1 && o.path % 4 == 3;
                 d.dtorMeasure = o.kind == NEWOBJ1 && o.path % 8 == 6;
-                d.cls = o.kind == NEWOBJ2 ? "Q2" : o.kind != NEWOBJ1 ? "" : d.dtorMeasure ? "Q1M" : o.path % 4 == 1 ? "Q1D" : d.dtorGate ? "Q1X" : "Q1";
+                d.dtorTemp = o.kind == NEWOBJ1 && o.path % 8 == 7;
+                d.cls = o.kind == NEWOBJ2 ? "Q2" : o.kind != NEWOBJ1 ? "" : d.dtorMeasure ? "Q1M" : o.path % 4 == 1 ? "Q1D" : d.dtorTemp ? "Q1Y" : d.dtorGate ? "Q1X" : "Q1";
                 decls.push_back(d);
                 std::vector<int> idx;
                 std::vector<cplx> before = sv.a;
@@ -872,6 +875,14 @@ struct Interp {
                 std::vector<int> targets;
                 if (o.kind == RESET) targets.push_back(resolve(o.h));
                 else targets = declIdx[(size_t)o.h.decl];
+                if (o.kind == DROP && decls[(size_t)o.h.decl].dtorTemp) {
+                    // the destructor's own qubit is allocated while the object still owns its field (it must not receive the
+                    // field's index); it is never released and stays |1>
+                    int t = allocIndex();
+                    leaked.push_back(t);
+                    sv.gate(1, t, 0);
+                    qasm.push_back("x q[" + std::to_string(t) + "];");
+                }
                 if (o.kind == DROP && decls[(size_t)o.h.decl].dtorGate) {
                     // the user destructor runs first and applies h to the field qubit; on a measured qubit it is
                     // refused: the error is raised at the next statement boundary, after the object has been released
